@@ -47,21 +47,48 @@ EXHAUSTIVE = {"quick": True, "thorough": True}
 KINDS = ["ode", "statio", "statio_border", "nonstatio", "obs", "param"]
 
 
+def _req(n, b):
+    return 3 * (-(-n // b)) + 2
+
+
 def gen_cases(rng, tier):
     nmax = 8 if tier == "quick" else 12
     cases = []
     for kind in KINDS:
+        if kind == "nonstatio":
+            continue
         for n in range(1, nmax + 1):
             for b in range(1, n + 1):
-                if tier == "quick" and kind in ("nonstatio", "statio_border") and n > 5:
+                if tier == "quick" and kind == "statio_border" and n > 5:
                     continue
-                q = -(-n // b)
-                cases.append({"kind": kind, "n": n, "b": b, "requests": 3 * q + 2,
+                cases.append({"kind": kind, "n": n, "b": b, "requests": _req(n, b),
+                              "seed": rng.randrange(1 << 30)})
+    # non-stationary generator: three cursors with their OWN sizes (times, omega, border rows per facet).
+    # Each cursor in turn sweeps all (n, b) of the scope while the two others take random sizes.
+    lim = 5 if tier == "quick" else 8
+    for target in ("times", "omega", "border"):
+        for n in range(1, lim + 1):
+            for b in range(1, n + 1):
+                sizes = {}
+                for cur in ("times", "omega", "border"):
+                    if cur == target:
+                        sizes[cur] = (n, b)
+                    else:
+                        nn = rng.randint(1, 5)
+                        sizes[cur] = (nn, rng.randint(1, nn))
+                cases.append({"kind": "nonstatio", "target": target, "n": n, "b": b,
+                              "sizes": {k: list(v) for k, v in sizes.items()},
+                              "requests": max(_req(*v) for v in sizes.values()),
                               "seed": rng.randrange(1 << 30)})
     return cases
 
 
 def shrink_candidates(case):
+    if case["kind"] == "nonstatio":
+        if case["requests"] > 2:
+            yield {**case, "requests": case["requests"] // 2}
+            yield {**case, "requests": case["requests"] - 1}
+        return
     for k in ("requests", "n", "b"):
         v = case[k]
         for nv in sorted({v // 2, v - 1}):
@@ -110,14 +137,18 @@ def run_impl(case):
                                min_pts=(-1.0, 0.0), max_pts=(1.0, 2.0))
         cursors = {"border": (lambda g: g.omega_border, None, lambda bt: bt.border_batch)}
     elif kind == "nonstatio":
-        g = CubicMeshPDENonStatio(key=key, n=n, nb=4 * n, nt=n, omega_batch_size=b, omega_border_batch_size=b,
-                                  temporal_batch_size=b, dim=2, min_pts=(-1.0, 0.0), max_pts=(1.0, 2.0),
-                                  tmin=0.0, tmax=2.0, cartesian_product=False)
+        (nt, bt), (no, bo), (nbf, bb) = (case["sizes"][k] for k in ("times", "omega", "border"))
+        g = CubicMeshPDENonStatio(key=key, n=no, nb=4 * nbf, nt=nt, omega_batch_size=bo,
+                                  omega_border_batch_size=bb, temporal_batch_size=bt, dim=2,
+                                  min_pts=(-1.0, 0.0), max_pts=(1.0, 2.0), tmin=0.0, tmax=2.0,
+                                  cartesian_product=True)
+        # decode the factors of the (time-major) cartesian product returned by get_batch
         cursors = {
-            "times": (lambda g: g.times, None, lambda bt: bt.times_x_inside_batch[:, 0]),
-            "omega": (lambda g: g.omega, None, lambda bt: bt.times_x_inside_batch[:, 1:]),
-            "border": (lambda g: g.omega_border, None, lambda bt: bt.times_x_border_batch[:, 1:, :]),
+            "times": (lambda g: g.times, None, lambda bt_: bt_.times_x_inside_batch[::bo, 0]),
+            "omega": (lambda g: g.omega, None, lambda bt_: bt_.times_x_inside_batch[:bo, 1:]),
+            "border": (lambda g: g.omega_border, None, lambda bt_: bt_.times_x_border_batch[:bb, 1:, :]),
         }
+        bsizes = {"times": bt, "omega": bo, "border": bb}
     elif kind == "obs":
         rs = np.random.RandomState(case["seed"] % (2**31))
         pin = jnp.asarray(np.arange(n, dtype=float)[:, None] * 2.0 + 1.0)
@@ -145,7 +176,8 @@ def run_impl(case):
             lab, distinct = _label_fn(store)
             labs[name] = lab
             store0 = list(range(len(store)))
-        traces[name] = {"store0": store0, "b": b, "nEff": len(store0), "distinct": distinct, "trace": []}
+        bcur = bsizes[name] if kind == "nonstatio" else b
+        traces[name] = {"store0": store0, "b": bcur, "nEff": len(store0), "distinct": distinct, "trace": []}
         prev[name] = np.asarray(gs(g)).copy()
     for _ in range(R):
         g, bt = g.get_batch()
@@ -199,13 +231,16 @@ def judge(case, obs, answers):
 
 def nontrivial(case, obs):
     for t in obs["traces"].values():
-        if t["distinct"] and sum(1 for r in t["trace"][1:] if r["reset"]) >= 1 and case["n"] > 1:
+        if t["distinct"] and sum(1 for r in t["trace"][1:] if r["reset"]) >= 1 and len(t["store0"]) > 1:
             return True
     return False
 
 
 def tags(case, obs):
     out = [f"kind={case['kind']}", "b_divides_n" if case["n"] % case["b"] == 0 else "b_not_dividing_n"]
+    if case["kind"] == "nonstatio":
+        sz = case["sizes"]
+        out.append("nonstatio_batch_sizes_" + ("all_equal" if len({tuple(v)[1] for v in sz.values()}) == 1 else "differ"))
     for name, t in obs["traces"].items():
         out.append(f"cursor={name}")
         if not t["distinct"]:
@@ -216,6 +251,9 @@ def tags(case, obs):
 def widen(rng, bad_cases):
     out = []
     for c in bad_cases:
+        if c["kind"] == "nonstatio":
+            out.extend(x for x in gen_cases(rng, "thorough") if x["kind"] == "nonstatio")
+            continue
         for n, b in itertools.product(range(1, 10), range(1, 10)):
             if b <= n:
                 out.append({**c, "n": n, "b": b, "requests": 3 * (-(-n // b)) + 2})
